@@ -3,7 +3,7 @@ CONSTANTS
   NoKey = "-"
   DocDels <- MCDocDels
   Authors = {"a", "b", "c", "s"}
-  NewDocs = {3}
+  NewDocs = {2, 3}
   InPlace = FALSE
   MaxOps = 3
   MaxActs = 1
